@@ -116,6 +116,22 @@ def run(tier):
                         m.update(engine=list(bytes(range(1, 12))), user=list(b"user"), auth_params=[], priv_params=[], msg_id=str(rid),
                                  boots=str(rng.choice([0, 1, 127, 128, 2 ** 31 - 1])), time=str(rng.choice([0, 255, 256, 2 ** 31 - 1])), fa=False, fr=(n == 0))
                     msgs.append((m, rid, oids))
+    # OBJECT IDENTIFIERs whose contents sit on the length-form boundaries (127/128, 255/256 octets) and far beyond: one to three per message
+    def oid_with_len(L, salt):
+        a, b = (L - 1) // 2, (L - 1) % 2
+        return ".".join(["1", "3"] + [str(128 + (salt + k) % 16000) for k in range(a)] + ["5"] * b)
+    for ver in ("v1", "v2c", "v3"):
+        for ptype in ("get", "getnext"):
+            for L in ([126, 127, 128, 129, 254, 255, 256, 257, 300, 1000] if not thorough else list(range(120, 135)) + list(range(250, 262)) + [300, 511, 512, 1000, 1300]):
+                for n in (1, 2, 3):
+                    if ptype == "getnext" and n > 1:
+                        continue
+                    rid = rng.choice([1, 128, 65535, 2 ** 31 - 1])
+                    oids = [oid_with_len(L + j, L * 3 + j) for j in range(n)]
+                    m = {"op": "msg_rt", "ver": ver, "community": list(b"public"), "pdu": {"type": ptype, "id": str(rid), "oids": oids}}
+                    if ver == "v3":
+                        m.update(engine=list(bytes(range(1, 12))), user=list(b"user"), auth_params=[], priv_params=[], msg_id=str(rid), boots="1", time="255", fa=False, fr=False)
+                    msgs.append((m, rid, oids))
     obs = rs.run([m for m, _, _ in msgs])
     recs = []
     for (m, rid, oids), o in zip(msgs, obs):
